@@ -6,7 +6,9 @@ every module is (1) re-printed with ast.unparse (all line numbers, quoting, pare
 comments change) and optionally (2) every local variable of every function is renamed; then runs
 every check on the copy and compares the set of failing keys with the run on /repo itself.
 
-usage: tools/refactor_twin.py [--rename] [props...]
+usage: tools/refactor_twin.py [--rename] [--log | --flip] [props...]
+  --log   adds a debug log call at the start of every function and at the end of every with-block
+  --flip  swaps the arms of every two-armed if (negating the test)
 """
 
 from __future__ import annotations
@@ -41,14 +43,15 @@ def failing(prop: str, root: Path) -> tuple[set[str], list[str]]:
 def main() -> int:
     args = [a for a in sys.argv[1:] if not a.startswith("--")]
     rename = "--rename" in sys.argv
+    mode = "log" if "--log" in sys.argv else "flip" if "--flip" in sys.argv else ""
     props = args or PROPS
     src = Path("/repo")
     tmp = Path(tempfile.mkdtemp(prefix="sa-twin-"))
     rc = 0
     try:
         _copy_tree(src, tmp)
-        n = rewrite_tree(tmp, rename)
-        print(f"rewrote {n} modules (rename={rename}) in {tmp}")
+        n = rewrite_tree(tmp, rename, mode)
+        print(f"rewrote {n} modules (rename={rename}, mode={mode or 'unparse'}) in {tmp}")
         for p in props:
             try:
                 base, bf = failing(p, src)
